@@ -68,6 +68,11 @@ def gen(chk):
     for st in ('.{|x| x.try./(0).err}', '.{|x| [x.try.nope.err]}.{|a| a[0]}', '.{|x| "q".try.{|s| raise ValueErr.new("v")}.A[1]}'):
         chains.append(("errvalue", st))
         chains.append(("errvalue", ".+(1)" + st))
+    # a step that succeeds with an Either as its VALUE: it is wrapped like any other value (no flattening), the next step gets it
+    # (only as the LAST step: a literal call on an Either is itself an fmap, so the plain chain is no reference beyond it)
+    for st in ('.{|x| x.try.+(1)}', '.{|x| Either.newVal(x)}', '.+(1).{|x| x.try}', '.{|x| x.try./(0)}', '.{|x| [x.try]}.{|a| a[0].val}',
+               '.{|x| [x.try.+(1)]}.{|a| a[0].A}'):
+        chains.append(("eithervalue", st))
     # keyword arguments of a property-call step must reach the callee
     for start, st in (('"a,b,c"', '.split(sep: ",")'), ('"a b"', '.split(sep: " ").{|a| a.len}'), ('"ff"', '.I(base: 16)'),
                       ('"101"', '.I(base: 2).+(1)'), ('"abcdefgh"', '.truncate(5, end: "~")')):
